@@ -141,4 +141,129 @@ theorem gateOracle_res_gated (fields : List (FInfo × Shape)) (hwf : fieldsWF fi
     (gateOracle fields o).res [.key fi.alias] = .err (gateMsg fi.name) := by
   simp [gateOracle, gatedAt_self fields hwf fi sh hmem hg]
 
+/-! ### locality: completion of a position consults user code only at paths under that position -/
+
+def Agree (o1 o2 : Oracle) (p : Path) : Prop :=
+  ∀ q, p <+: q → o1.res q = o2.res q ∧ ∀ n, o1.dir q n = o2.dir q n
+
+theorem Agree.snoc {o1 o2 : Oracle} {p : Path} (h : Agree o1 o2 p) (a : Seg) : Agree o1 o2 (p ++ [a]) :=
+  fun q hq => h q (List.IsPrefix.trans (List.prefix_append p [a]) hq)
+
+theorem runDirs_congr (o1 o2 : Oracle) (p : Path) (h : ∀ n, o1.dir p n = o2.dir p n) :
+    ∀ (ds : List String) (st : St), Impl.runDirs o1 p ds st = Impl.runDirs o2 p ds st
+  | [], st => by simp [Impl.runDirs]
+  | d :: inner, st => by
+    simp only [Impl.runDirs, h d]
+    cases o2.dir p d <;> simp [runDirs_congr o1 o2 p h inner]
+
+mutual
+theorem value_congr (o1 o2 : Oracle) : ∀ (sh : Shape) (v : V) (p : Path), Agree o1 o2 p →
+    Spec.completeValue o1 sh v p = Spec.completeValue o2 sh v p
+  | .leaf nn, v, p, _ => by cases v <;> simp [Spec.completeValue]
+  | .obj nn ifc cases, v, p, h => by
+    cases v with
+    | obj ty => simp only [Spec.completeValue]; rw [cases_congr o1 o2 ty cases p h]
+    | null => simp [Spec.completeValue]
+    | leaf t => simp [Spec.completeValue]
+    | list vs => simp [Spec.completeValue]
+  | .list nn ec elem, v, p, h => by
+    cases v with
+    | list vs => simp only [Spec.completeValue]; rw [elems_congr o1 o2 elem ec vs p 0 h]
+    | null => simp [Spec.completeValue]
+    | leaf t => simp [Spec.completeValue]
+    | obj ty => simp [Spec.completeValue]
+
+theorem cases_congr (o1 o2 : Oracle) (ty : String) : ∀ (cases : List (String × List (FInfo × Shape)))
+    (p : Path), Agree o1 o2 p → Spec.completeCases o1 ty cases p = Spec.completeCases o2 ty cases p
+  | [], p, _ => by simp [Spec.completeCases]
+  | (c, fields) :: rest, p, h => by
+    simp only [Spec.completeCases]
+    rw [fields_congr o1 o2 ty fields p h, cases_congr o1 o2 ty rest p h]
+
+theorem fields_congr (o1 o2 : Oracle) (ty : String) : ∀ (fields : List (FInfo × Shape)) (p : Path),
+    Agree o1 o2 p → Spec.completeFields o1 ty fields p = Spec.completeFields o2 ty fields p
+  | [], p, _ => by simp [Spec.completeFields]
+  | (fi, sh) :: rest, p, h => by
+    simp only [Spec.completeFields]
+    rw [field_congr o1 o2 fi sh _ (h.snoc _), fields_congr o1 o2 ty rest p h]
+
+theorem field_congr (o1 o2 : Oracle) (fi : FInfo) : ∀ (sh : Shape) (p : Path), Agree o1 o2 p →
+    Spec.completeField o1 fi sh p = Spec.completeField o2 fi sh p
+  | sh, p, h => by
+    have hp := h p (List.prefix_refl p)
+    simp only [Spec.completeField]
+    rw [runDirs_congr o1 o2 p hp.2, hp.1]
+    simp only [value_congr o1 o2 sh _ p h]
+
+theorem elems_congr (o1 o2 : Oracle) : ∀ (elem : Shape) (ec : Bool) (vs : List V) (p : Path) (i : Nat),
+    Agree o1 o2 p → Spec.completeElems o1 elem ec vs p i = Spec.completeElems o2 elem ec vs p i
+  | elem, ec, [], p, i, _ => by simp [Spec.completeElems]
+  | elem, ec, v :: rest, p, i, h => by
+    simp only [Spec.completeElems]
+    have hq : Agree o1 o2 (if ec = true then p ++ [Seg.idx i] else p) := by
+      cases ec
+      · simpa using h
+      · simpa using h.snoc _
+    rw [value_congr o1 o2 elem v _ hq, elems_congr o1 o2 elem ec rest p (i + 1) h]
+end
+
+theorem gateOracle_res_other (fields : List (FInfo × Shape)) (o : Oracle) (q : Path)
+    (h : ∀ k, q = [.key k] → gatedAt fields k = none) : (gateOracle fields o).res q = o.res q := by
+  unfold gateOracle
+  match q with
+  | [] => rfl
+  | [.key k] => simp [h k rfl]
+  | [.idx _] => rfl
+  | .key _ :: _ :: _ => rfl
+  | .idx _ :: _ :: _ => rfl
+
+/-- with the gate closed, the selection set's result is the same for any two oracles that agree
+    outside the subtrees of the gated root fields -/
+theorem spec_fields_noninterference (fields : List (FInfo × Shape)) (hwf : fieldsWF fields)
+    (hnd : gatedNoDirs fields = true) (o1 o2 : Oracle)
+    (h : ∀ q, (∀ f ∈ fields, isGated f.1.name = true → ¬ [Seg.key f.1.alias] <+: q) →
+      o1.res q = o2.res q ∧ ∀ n, o1.dir q n = o2.dir q n) (ty : String) :
+    ∀ fs : List (FInfo × Shape), (∀ f ∈ fs, f ∈ fields) →
+      Spec.completeFields (gateOracle fields o1) ty fs [] = Spec.completeFields (gateOracle fields o2) ty fs []
+  | [], _ => by simp [Spec.completeFields]
+  | (fj, shj) :: rest, hsub => by
+    rw [completeFields_cons, completeFields_cons,
+      spec_fields_noninterference fields hwf hnd o1 o2 h ty rest (fun f hf => hsub f (by simp [hf]))]
+    have hmem : (fj, shj) ∈ fields := hsub _ (by simp)
+    have hhead : headRes (gateOracle fields o1) ty fj shj [] = headRes (gateOracle fields o2) ty fj shj [] := by
+      unfold headRes
+      by_cases ht : (fj.name == "__typename") = true
+      · simp [ht]
+      · simp only [ht, Bool.false_eq_true, if_false]
+        cases hg : isGated fj.name with
+        | true =>
+          have hd := gatedNoDirs_mem hnd hmem hg
+          rw [spec_gated_field _ fj shj _ _ hd (by simpa using gateOracle_res_gated fields hwf o1 fj shj hmem hg),
+            spec_gated_field _ fj shj _ _ hd (by simpa using gateOracle_res_gated fields hwf o2 fj shj hmem hg)]
+        | false =>
+          apply field_congr
+          intro q hq
+          have hk : ∀ k, q = [Seg.key k] → gatedAt fields k = none := by
+            intro k hk
+            subst hk
+            have : k = fj.alias := by
+              obtain ⟨t, ht⟩ := hq
+              simp only [List.nil_append, List.cons_append, List.cons.injEq, Seg.key.injEq] at ht
+              exact ht.1.symm
+            subst this
+            exact gatedAt_none fields hwf fj shj hmem hg
+          have hcond : ∀ f ∈ fields, isGated f.1.name = true → ¬ [Seg.key f.1.alias] <+: q := by
+            intro f hf hgf hpf
+            simp only [List.nil_append] at hq
+            obtain ⟨t1, rfl⟩ := hq
+            obtain ⟨t2, ht2⟩ := hpf
+            simp only [List.cons_append, List.nil_append, List.cons.injEq, Seg.key.injEq] at ht2
+            have := alias_unique fields hwf f (fj, shj) hf hmem ht2.1
+            subst this
+            simp [hg] at hgf
+          have hh := h q hcond
+          exact ⟨by rw [gateOracle_res_other fields o1 q hk, gateOracle_res_other fields o2 q hk]; exact hh.1,
+            fun n => hh.2 n⟩
+    rw [hhead]
+
 end GqlgenVerif.IntroGate
